@@ -12,7 +12,7 @@ Definition ex_state0 : state :=
 (* EndBlock 20 opens the round with base block 20 and gives every validator a zero nonce row *)
 Definition ex_state20 : state := end_block ex_params 20 [] ex_state0.
 Definition ex_msg (creator nonce : Z) (det : string) (price : Z) : msg :=
-  mkMsg creator 1 20 nonce [mkPS 1 [mkPI det price 8 100]].
+  mkMsg creator 1 20 nonce [mkPS 1 [mkPI det price 8 100 true]].
 Definition ex_now : Z := 200000000000.
 
 (* admitted => size, public key, signature and the nonce clause (for every message of the tx: a nonce row
@@ -73,6 +73,20 @@ Theorem C13_count : forall p now s m x s' m' r,
   (exists it, In it (first_items x) /\ mem_s (pi_det it) (seen_dets m (m_feeder x) (m_creator x)) = false).
 Proof. exact C13_count_l. Qed.
 Print Assumptions C13_count.
+
+(* counted => every price string of the message is a decimal number: a non-numeric price ("abc") is rejected by
+   sanityCheck before the aggregator memory is touched (repaired behaviour; before the repair it was held in memory as a
+   nil price and every later message of the round for that det-ID panicked inside DeliverTx) *)
+Theorem C13_count_numeric : forall p now s m x s' m' r,
+  create_price p now s m x = (s', m', r) -> r = MsgCounted \/ r = MsgFinal ->
+  forall ps it, In ps (m_prices x) -> In it (ps_prices ps) -> pi_num it = true.
+Proof. exact create_price_counted_numeric. Qed.
+Print Assumptions C13_count_numeric.
+
+Example ex_non_numeric_rejected :
+  create_price ex_params ex_now (st_store ex_state20) (st_mem ex_state20) (mkMsg 0 1 20 1 [mkPS 1 [mkPI "1" 0 8 100 false]])
+  = (st_store ex_state20, st_mem ex_state20, MsgErr).
+Proof. vm_compute. reflexivity. Qed.
 
 (* not admitted => nothing changes at all (store and memory), and the tx does not succeed *)
 Theorem C13_not_admitted_no_change : forall p now st t st' ok,
@@ -170,6 +184,15 @@ Theorem C13_bound : forall p v f st ops,
 Proof. exact C13_bound_l. Qed.
 Print Assumptions C13_bound.
 
+(* ... and across a parameter update: the same count over a run under p followed by a run under p' stays within the
+   limit whenever the update keeps MaxNonce (new feeders, end blocks, new tokens / sources / rules, MaxSizePrices do) *)
+Theorem C13_bound_across_update : forall p p' v f st ops1 ops2,
+  0 <= p_max_nonce p -> p_max_nonce p' = p_max_nonce p ->
+  tables_ok (s_nonces (st_store st)) -> bounded p (s_nonces (st_store st)) ->
+  snd (fold_left (count_step p' v f) ops2 (fold_left (count_step p v f) ops1 (st, 0))) <= p_max_nonce p.
+Proof. exact admitted_bounded_across_update. Qed.
+Print Assumptions C13_bound_across_update.
+
 (* the bound is reached: validator 0 gets exactly MaxNonce = 3 messages admitted in one round, the 4th is refused *)
 Example ex_bound_reached :
   let tx (n : Z) (d : string) := OpTx ex_now (mkTx [ex_msg 0 n d 100] 300 true true) in
@@ -198,6 +221,6 @@ Example ex_rejected_forged_signature :
 Proof. vm_compute. reflexivity. Qed.
 
 Example ex_rejected_message :
-  exists m', create_price ex_params ex_now (st_store ex_state20) (st_mem ex_state20) (mkMsg 0 1 19 1 [mkPS 1 [mkPI "1" 100 8 100]])
+  exists m', create_price ex_params ex_now (st_store ex_state20) (st_mem ex_state20) (mkMsg 0 1 19 1 [mkPS 1 [mkPI "1" 100 8 100 true]])
              = (st_store ex_state20, m', MsgErr).
 Proof. eexists. vm_compute. reflexivity. Qed.
